@@ -1280,15 +1280,15 @@ def rotate(phi, theta, psi, ra, dec):
     cb = cos(b)
     cbsa = cb * sin(a)
 
-    b = -sintheta * cbsa + costheta * sb
+    x = cb * cos(a)
+    y = costheta * cbsa + sintheta * sb
+    z = -sintheta * cbsa + costheta * sb
 
-    (w,) = np.where(b > 1.0)
-    if w.size > 0:
-        b[w] = 1.0
+    # arctan2 keeps full precision at the poles (arcsin loses half the
+    # digits there and needs clipping on both sides)
+    dec_out = arctan2(z, sqrt(x * x + y * y))
 
-    dec_out = arcsin(b)
-
-    a = arctan2(costheta * cbsa + sintheta * sb, cb * cos(a))
+    a = arctan2(y, x)
     ra_out = (a + psi + fourpi) % twopi
 
     rad2deg(ra_out, out=ra_out)
